@@ -211,6 +211,9 @@ pub fn gen_cases(seed: u64, p: &GenParams, lalr: bool) -> Vec<String> {
                 Ok(t) => t,
                 Err(_) => continue,
             };
+            if lalr && !p.keep_cyclic && !crate::lrrun::lr_sim_terminates(b, &toks, 20_000) {
+                continue; // F24 on a non-cyclic grammar (hidden left recursion resolved toward the empty reduction)
+            }
             for o in opts_cycle(i, p.all_opts) {
                 out.push(format!(
                     "{} {} {} {} {} {} {} {} {} {} {}",
